@@ -95,6 +95,19 @@ pub const TCHARS: &[char] = &['a', 'b', 'c', 'd', '1', '2', 'あ', 'い', '京',
 const CELLS: &[&str] = &["N", "V", "A", "x", "y", "p,q", "*", "k"];
 
 impl TrainSpec {
+    /// After seed rows were edited: corpus tokens whose (surface, feature) no longer names a seed row
+    /// although the surface is in the lexicon take the feature of the first row with that surface.
+    pub fn resync_corpus(&mut self) {
+        for sent in self.corpus.iter_mut() {
+            for (surface, feat) in sent.iter_mut() {
+                let same: Vec<&SeedRow> = self.lex.iter().filter(|r| r.surface == *surface).collect();
+                if !same.is_empty() && !same.iter().any(|r| r.feature() == *feat) {
+                    *feat = same[0].feature();
+                }
+            }
+        }
+    }
+
     pub fn lex_csv(&self) -> String {
         let mut s = String::new();
         for r in &self.lex {
